@@ -169,3 +169,25 @@ Proof.
   rewrite H. cbn [Z.eqb opt_segs]. change (1 =? 1) with true. cbv iota. cbn [opt_segs].
   split; [apply rm_all_no_private|apply rm_no_empty_segment].
 Qed.
+
+(* ---- replace-peer-as *)
+Lemma replace_as_no_peer local peer p : local <> peer ->
+  forall s, In s (opt_segs (replace_as local peer p)) -> ~ In peer (snd s).
+Proof.
+  intros Hne s Hs. destruct p as [l|]; [|destruct Hs]. cbn [replace_as option_map opt_segs] in Hs.
+  apply in_map_iff in Hs. destruct Hs as (s0 & <- & _). cbn [snd]. intros Hin. apply in_map_iff in Hin.
+  destruct Hin as (a & E & _). destruct (Z.eqb_spec a peer); congruence.
+Qed.
+Lemma replace_as_shape local peer p :
+  map (fun s : seg => (fst s, length (snd s))) (opt_segs (replace_as local peer p)) = map (fun s : seg => (fst s, length (snd s))) (opt_segs p).
+Proof.
+  destruct p as [l|]; [|reflexivity]. cbn [replace_as option_map opt_segs]. rewrite map_map. apply map_ext. intros s. cbn [fst snd]. now rewrite map_length.
+Qed.
+Lemma replace_as_elsewhere local peer p s a : In s (opt_segs (replace_as local peer p)) -> In a (snd s) -> a <> local ->
+  exists s0, In s0 (opt_segs p) /\ In a (snd s0).
+Proof.
+  intros Hs Ha Hl. destruct p as [l|]; [|destruct Hs]. cbn [replace_as option_map opt_segs] in Hs. apply in_map_iff in Hs.
+  destruct Hs as (s0 & <- & Hs0). cbn [snd] in Ha. apply in_map_iff in Ha. destruct Ha as (b & E & Hb).
+  exists s0. split; [exact Hs0|]. destruct (Z.eqb_spec b peer); [congruence|]. now subst b.
+Qed.
+
